@@ -52,6 +52,10 @@ func checkC20(c *Ctx) {
 	}
 	c.dedupInsert()
 	c.fanOut(r.HandOver)
+	// nothing but the server's messages reaches the callbacks: the teardown hands the will on only in the broker role
+	if r.HandOver != nil {
+		teardownOrder(c, "C20")
+	}
 	// the inbound QoS 2 queue of the client and the packet writer it answers through
 	c.queueIndexRules()
 	c.growRules()
